@@ -937,6 +937,9 @@ const NAMINGS: &[[&str; 3]] = &[
     ["S", "v0", "O"],
     ["V0", "V2", "V1"],
     ["v", "v_1", "v00"],
+    // generated-looking names whose index is at the end of the counter's range
+    ["v18446744073709551615", "P", "v0"],
+    ["v18446744073709551614", "v1", "v0"],
 ];
 const N_SHAPES: usize = 12;
 
